@@ -111,7 +111,9 @@ Proof.
   destruct (l_ind_eof_sent cfg) eqn:Hind; msimp; rewrite ?Hind; msimp; rewrite Hmode;
     change (ACKED =? ACKED) with true; cbv iota;
     (match goal with |- context[start_positive_ack_procedure_s ?st] => nsrc st end);
-    unfold start_positive_ack_procedure_s; msimp; nres;
+    unfold start_positive_ack_procedure_s; msimp;
+    (* the handler is not IGNORE: the call ends with the declaration (F34 repair) *)
+    unfold fault_ignored; rewrite Hfh; msimp; nres;
     (eexists; split; [reflexivity|]); unfold waiting; do 11 eexists; reflexivity.
 Qed.
 
@@ -129,7 +131,8 @@ Proof.
   unfold tail_s, handle_waiting_for_ack, handle_positive_ack_procedures_s. msimp.
   rewrite timer_expired. msimp. rewrite Hle. msimp.
   unfold declare_fault_s. msimp. rewrite Hfh. msimp.
-  unfold notice_of_cancellation_s. msimp. rewrite Hce. msimp. nres.
+  unfold notice_of_cancellation_s. msimp. rewrite Hce. msimp.
+  unfold fault_ignored. rewrite Hfh. msimp. nres.
   eexists. split; [reflexivity|]. cbn. repeat split; reflexivity.
 Qed.
 
